@@ -7,6 +7,7 @@ import GontainerModel.Lemmas.DepGraph
 import GontainerModel.Lemmas.SortedMap
 import GontainerModel.Model.Runtime
 import GontainerModel.Lemmas.History
+import GontainerModel.Lemmas.Rank
 import GontainerModel.Generated.Template
 namespace GM.C05
 open GM GM.Graph GM.Output
@@ -210,6 +211,24 @@ theorem contexts_are_separate (p : Runtime.Prog) (rk rkP : String → Nat) (hsr 
 theorem plain_get_has_fresh_bag (F : Nat) (p : Runtime.Prog) (st : Runtime.St) (id : String) :
     Runtime.stepOp F p st (.get id) = ((Runtime.get F p st [] id).1, (Runtime.get F p st [] id).2.2) := rfl
 
+/-- **for every accepted configuration** (compiled dependency graph acyclic — what `ValidateCircularDeps` checks, C07 — and
+the resolvers' recorded dependencies present): a shared service is instantiated once per container across any history -/
+theorem shared_once_for_acyclic (p : Runtime.Prog) (hac : cyclic (buildGraph p.out) = false)
+    (hw : Runtime.ArgsRecorded p) (hd : Runtime.ParamDepsRecorded p) (F : Nat) (ops : List Runtime.Op) (st : Runtime.St)
+    (id : String) (v : Runtime.RV) (hsc : Runtime.effScope p st id = .shared) (hc : st.shared.lookup id = some v) :
+    (Runtime.runOps F p st ops).shared.lookup id = some v ∧
+    (∃ suf, (Runtime.runOps F p st ops).evalLog = st.evalLog ++ suf ∧ ("ctor:" ++ id) ∉ suf) :=
+  let h := shared_once_per_container p _ _ (Runtime.sranked_of_acyclic p hac hw) (Runtime.ranked_of_acyclic p hac hd) F ops st id v hsc hc
+  ⟨h.1, h.2.1⟩
+
+/-- … and what a context's bag holds stays there -/
+theorem contextual_once_for_acyclic (p : Runtime.Prog) (hac : cyclic (buildGraph p.out) = false)
+    (hw : Runtime.ArgsRecorded p) (hd : Runtime.ParamDepsRecorded p) (F : Nat) (ops : List Runtime.Op) (st : Runtime.St)
+    (c : String) (hnew : Runtime.Op.newCtx c ∉ ops) (id : String) (v : Runtime.RV)
+    (hc : (Runtime.bagOf st c).lookup id = some v) :
+    (Runtime.bagOf (Runtime.runOps F p st ops) c).lookup id = some v :=
+  contextual_once_per_context p _ _ (Runtime.sranked_of_acyclic p hac hw) (Runtime.ranked_of_acyclic p hac hd) F ops st c hnew id v hc
+
 -- non-vacuity of the history theorems: a two-service program (a depends on the shared b and carries a tag) is ranked
 def demoHist : Runtime.Prog :=
   { out := { services := [
@@ -238,5 +257,19 @@ example : Runtime.SRanked demoHist (fun n => if n = "a" then 1 else 0) := by
     · simp [demoHist] at hdc
 example : Runtime.Ranked demoHist (fun _ => 0) := by
   intro prm h; simp [demoHist] at h
+
+-- … and it meets the hypotheses of the acyclic form
+example : cyclic (buildGraph demoHist.out) = false := by decide
+example : Runtime.ParamDepsRecorded demoHist := by intro prm h; simp [demoHist] at h
+example : Runtime.ArgsRecorded demoHist := by
+  constructor
+  · intro s hs a ha
+    simp only [demoHist, List.mem_cons, List.not_mem_nil, or_false] at hs
+    rcases hs with rfl | rfl
+    · simp [Output.Service.allArgs] at ha
+      subst ha
+      exact ⟨fun _ => by simp, fun h => by rw [demoHist_kind] at h; cases h⟩
+    · simp [Output.Service.allArgs] at ha
+  · intro d hd; simp [demoHist] at hd
 
 end GM.C05
